@@ -190,7 +190,7 @@ theorem body_encodes (v : Ver) (T : OpTable) (names varnames freevars cellvars :
   -- second pass
   have hsim0 : SimSt names varnames cellvars K st0 { est0 with cellvars := e2 } :=
     ⟨by rw [hn0, en0]; exact Sim.init _ _, hsv0, hsk0, hcomp2, by rw [hc0]⟩
-  obtain ⟨est1, xs, hres, hss⟩ := decodeInstrs_resolve v T freevars tp names varnames cellvars K hdoc (targetsOf ois) raws st0 st'
+  obtain ⟨est1, xs, hres, hss, hxlen, hxval⟩ := decodeInstrs_resolve v T freevars tp names varnames cellvars K hdoc (targetsOf ois) raws st0 st'
     { est0 with cellvars := e2 } ois hsim0 hdec
   rw [← hflat] at hres
   -- the width loop
